@@ -60,7 +60,10 @@ FLIP_ALPHABET = "(){}[]<>%^#!@:,=-+*?|\"0x9.e\\ \n\t\x00é中²١\x0b\x0c'/~`\u0
 FAULT_KINDS = ("eof", "drop", "flip", "dup", "swap", "torn", "splice", "crlf", "bom", "utf8cut", "insert", "stutter", "tokrepl", "tokdel", "tokdup", "numtweak", "typetweak")
 
 
-NUM_TWEAKS = ("-1", "-9", "0", "-0", "99999999999", "18446744073709551616", "007", "1e3", "0x", "0x1p3", "-", "1.", ".5", "4294967296")
+# boundary spellings of numbers, incl. lengths around Python's int <-> str conversion limit
+# (4300 decimal digits; 3571 hexadecimal digits are the largest value below 10**4300)
+_LONG_NUMS = ("9" * 4300, "9" * 4301, "0x" + "F" * 3571, "0x" + "F" * 3572, "0x" + "F" * 4300, "0x" + "F" * 4301)
+NUM_TWEAKS = ("-1", "-9", "0", "-0", "99999999999", "18446744073709551616", "007", "1e3", "0x", "0x1p3", "-", "1.", ".5", "4294967296") + _LONG_NUMS
 
 
 def num_tweak(text: str, a: int, b: int, tw: int) -> tuple[str, str]:
@@ -71,8 +74,8 @@ def num_tweak(text: str, a: int, b: int, tw: int) -> tuple[str, str]:
     m = re.search(r"[0-9]+", text[a:b])
     rep = NUM_TWEAKS[tw % len(NUM_TWEAKS)]
     if m is None:
-        return text[:a] + rep + text[b:], f"numtweak[{a},{b}) <- {rep!r} (whole token)"
-    return text[: a + m.start()] + rep + text[a + m.end() :], f"numtweak[{a + m.start()},{a + m.end()}) <- {rep!r}"
+        return text[:a] + rep + text[b:], f"numtweak[{a},{b}) <- {(rep if len(rep) < 40 else rep[:6] + '...(' + str(len(rep)) + ' chars)')!r} (whole token)"
+    return text[: a + m.start()] + rep + text[a + m.end() :], f"numtweak[{a + m.start()},{a + m.end()}) <- {(rep if len(rep) < 40 else rep[:6] + '...(' + str(len(rep)) + ' chars)')!r}"
 
 
 TYPE_TWEAKS = (
@@ -588,7 +591,7 @@ def _token_kind_at(toks: list[tuple[int, int, str]], k: int) -> str:
 # W4: synthetic stress texts (generated, not taken from the corpus)
 # ---------------------------------------------------------------------------
 
-_LITS = ("0", "1", "-1", "-0", "255", "256", "-129", "4294967296", "18446744073709551616", "1e3", "1.5", "-0.0", "1e400", "0x7F", "0xFFFFFFFF", "0x7FC00000", "true", "false", "0x", "1.", "inf", "nan")
+_LITS = ("0", "1", "-1", "-0", "255", "256", "-129", "4294967296", "18446744073709551616", "1e3", "1.5", "-0.0", "1e400", "0x7F", "0xFFFFFFFF", "0x7FC00000", "true", "false", "0x", "1.", "inf", "nan") + _LONG_NUMS
 _SCALAR_TYPES = ("i1", "i8", "i32", "i64", "index", "f16", "f32", "f64", "bf16") + TYPE_TWEAKS
 
 
@@ -703,10 +706,11 @@ def synth_text(cfg: Stream) -> tuple[str, str]:
             t = f'"y"() {{a = dense<"0x0102030405060708"> : tensor<{n}x{ty}>}} : () -> ()\n'
         else:
             t = f'"y"() {{a = sparse<[[0]], [{lit}]> : tensor<{n + 1}x{ty}>, b = dense_resource<k> : tensor<{n}x{ty}>, c = #builtin.int<{lit}>, d = loc("f":{lit}:{lit})}} : () -> ()\n'
-        return t, f"typed-literal(ctx={ctxk}, lit={lit!r}, type={ty!r})"
+        return t, f"typed-literal(ctx={ctxk}, lit={(lit if len(lit) < 40 else lit[:6] + '...(' + str(len(lit)) + ' chars)')!r}, type={ty!r})"
     # fam 6: SSA names, indices and block labels at their boundaries
     k = cfg.choice(6)
-    idx = ("0", "1", "2", "-1", "-2", "007", "18446744073709551616", "9" * 30)[cfg.choice(8)]
+    idxs = ("0", "1", "2", "-1", "-2", "007", "18446744073709551616", "9" * 30) + _LONG_NUMS
+    idx = idxs[cfg.choice(len(idxs))]
     if k == 0:
         t = f'%0:2 = "x"() : () -> (i32, i32)\n"y"(%0#{idx}) : (i32) -> ()\n'
     elif k == 1:
@@ -719,7 +723,7 @@ def synth_text(cfg: Stream) -> tuple[str, str]:
         t = f'"r"() ({{\n  "b"()[^{idx}, ^bb1] : () -> ()\n^bb1:\n  "y"() : () -> ()\n}}) : () -> ()\n'
     else:
         t = f'%{idx} = "x"() : () -> i32\n"y"(%{idx}, %{idx}#0) : (i32, i32) -> ()\n'
-    return t, f"ssa-boundary(kind={k}, idx={idx!r})"
+    return t, f"ssa-boundary(kind={k}, idx={(idx if len(idx) < 40 else idx[:6] + '...(' + str(len(idx)) + ' chars)')!r})"
 
 # ---------------------------------------------------------------------------
 # engine
